@@ -875,3 +875,15 @@ Print Assumptions C12_math_verbatim_not_covered_witness.
 Theorem C12_infixb_sound : forall a b, infixb a b = false -> ~ infix a b.
 Proof. exact infixb_false. Qed.
 Print Assumptions C12_infixb_sound.
+
+(** the source-level theorems over the extended grammar subsume those over the core grammar
+    (with [C02_core_grammar_embeds]: [ok_doc d -> ok_doc2 (up_doc d)], same written form) *)
+From PLV Require Import Proofs.Compose2CommentsEmbed.
+Theorem C12_same_but_comments_embeds : forall d d',
+  same_but_comments d d' -> same_but_comments2 (up_doc d) (up_doc d').
+Proof. exact same_but_comments_up. Qed.
+Theorem C12_same_but_comments_outside_math_embeds : forall lt d d',
+  same_but_comments_outside_math d d' -> same_but_comments_outside_math2 lt (up_doc d) (up_doc d').
+Proof. exact same_but_comments_outside_math_up. Qed.
+Print Assumptions C12_same_but_comments_embeds.
+Print Assumptions C12_same_but_comments_outside_math_embeds.
